@@ -82,9 +82,34 @@ func NewEngine(e Eng, remotes []*Remote) *Engine {
 		for i, r := range remotes {
 			engs[i] = r
 		}
-		return &Engine{E: engine.NewDistributedEngine(opts, api.NewStaticEndpoints(engs)), Reg: reg, Remotes: remotes}
+		// the set of remote engines is asked for at every query (service discovery): one that
+		// joins after the engine was constructed takes part in the next query
+		ep := &dynEndpoints{engs: engs}
+		if e.Grow && len(engs) > 1 {
+			ep.engs = engs[:len(engs)-1]
+		}
+		de := engine.NewDistributedEngine(opts, ep)
+		ep.set(engs)
+		return &Engine{E: de, Reg: reg, Remotes: remotes}
 	}
 	return &Engine{E: engine.New(opts), Reg: reg}
+}
+
+type dynEndpoints struct {
+	mu   sync.Mutex
+	engs []api.RemoteEngine
+}
+
+func (d *dynEndpoints) Engines() []api.RemoteEngine {
+	d.mu.Lock()
+	defer d.mu.Unlock()
+	return append([]api.RemoteEngine(nil), d.engs...)
+}
+
+func (d *dynEndpoints) set(engs []api.RemoteEngine) {
+	d.mu.Lock()
+	d.engs = engs
+	d.mu.Unlock()
 }
 
 func (e *Engine) counters() (native, fallback float64) {
@@ -213,6 +238,8 @@ type Outcome struct {
 	Unsupported    bool              `json:"unsupported,omitempty"`
 	ClientPanic    string            `json:"client_panic,omitempty"`
 	CancelPanic    string            `json:"cancel_panic,omitempty"` // panic inside Cancel()/Close() called by the second client
+	LoopAtCancel   int               `json:"-"`                      // passes of Exec's loop when the client's Cancel()/Close() had returned (-1: not applicable)
+	LoopAtEnd      int               `json:"-"`
 	Fallback       bool              `json:"fallback,omitempty"`
 	DNative        float64           `json:"d_native"`
 	DFallback      float64           `json:"d_fallback"`
@@ -311,7 +338,7 @@ func newQuery(e *Engine, st storage.Queryable, op Op) (promql.Query, error) {
 
 // RunQuery creates, executes and closes one query as the calling task.
 func RunQuery(r QueryRun) (o *Outcome) {
-	o = &Outcome{}
+	o = &Outcome{LoopAtCancel: -1}
 	op := r.Op
 	defer func() {
 		if p := recover(); p != nil {
@@ -435,6 +462,9 @@ func RunQuery(r QueryRun) (o *Outcome) {
 			}()
 			omu.Lock()
 			running := o.ExecStart != 0 && o.ExecEnd == 0
+			if running {
+				o.LoopAtCancel = r.Sim.SiteCount("exec.loop")
+			}
 			omu.Unlock()
 			if running {
 				if r.Acct != nil {
@@ -488,6 +518,9 @@ func RunQuery(r QueryRun) (o *Outcome) {
 	o.ExecEnd = step()
 	if o.ExecEnd == 0 {
 		o.ExecEnd = -1
+	}
+	if r.Sim != nil {
+		o.LoopAtEnd = r.Sim.SiteCount("exec.loop")
 	}
 	omu.Unlock()
 	o.CtxDoneAtEnd = ctx.Err() != nil
